@@ -592,7 +592,16 @@ EA_CLASSES = {
 
 
 def build_stack(ctx: Ctx, tag: int, stack: list):
-    fp = FunctionProblem(make_recorder(ctx.log, tag, ctx.g, ctx.sign), ctx.bounds.copy(), ctx.maximize)
+    rec = make_recorder(ctx.log, tag, ctx.g, ctx.sign)
+    form = ctx.desc.get("objective_form", "closure")
+    if form == "lambda":
+        fun = lambda x, *a, **k: rec(x, *a, **k)  # noqa: E731
+        fun.log, fun.tag = rec.log, rec.tag
+    elif form == "callable":
+        fun = userdefs.CallableObjective(rec)
+    else:
+        fun = rec
+    fp = FunctionProblem(fun, ctx.bounds.copy(), ctx.maximize)
     objs = [fp]
     p = fp
     opt = ctx.sign * g_min(ctx.desc["obj"], ctx.desc["box"]["bounds"])
